@@ -128,10 +128,19 @@ func genPair(t *rapid.T, alphabet []string, maxLen int) ([]string, []string) {
 	return mutate("ml"), mutate("mr")
 }
 
+// collisionAlphabet: pairs of different lines of equal length with equal
+// 32-bit FNV-1a, FNV-1 and Adler-32 checksums (found by search), for code that
+// compares lines through a checksum.  prefixAlphabet: lines that are prefixes
+// of one another (white space trimmed, a CR stripped, a column cut).
+var (
+	collisionAlphabet = []string{"yvivst", "csbxun", "mtbupt", "uiukfp", "yygpht", "ryxbtl", "vlfqzo", "iqoyrh"}
+	prefixAlphabet    = []string{"abc  ", "abc", "abc ", "ab", "x\r", "x", ""}
+)
+
 func TestC13Rand(t *testing.T) {
 	h := vk.Start(t, "C13", "rand")
 	vk.Rapid(h, t, func(t *rapid.T) DiffCase {
-		alpha := rapid.SampledFrom([][]string{{"a", "b"}, {"a", "b", "c"}, {"a", "b", "c", "d", ""}}).Draw(t, "alpha")
+		alpha := rapid.SampledFrom([][]string{{"a", "b"}, {"a", "b", "c"}, {"a", "b", "c", "d", ""}, collisionAlphabet, prefixAlphabet}).Draw(t, "alpha")
 		l, r := genPair(t, alpha, rapid.SampledFrom([]int{40, 40, 100}).Draw(t, "maxLen"))
 		lay := rapid.SampledFrom([]int{0, 0, 0, 1, 2, 3}).Draw(t, "layout")
 		if (lay == 1 || lay == 2) && len(l) > 0 {
@@ -146,7 +155,7 @@ func TestC13Rand(t *testing.T) {
 				l, r = r, l
 			}
 		}
-		return DiffCase{L: l, R: r, Lay: lay, N: rapid.SampledFrom([]int{0, 1, 1, 2, 2, 3, 3, 5, 8, 50, -1, math.MaxInt, math.MaxInt - 2}).Draw(t, "n")}
+		return DiffCase{L: l, R: r, Lay: lay, Share: rapid.IntRange(0, 2).Draw(t, "share") == 0, N: rapid.SampledFrom([]int{0, 1, 1, 2, 2, 3, 3, 5, 8, 50, -1, math.MaxInt, math.MaxInt - 2}).Draw(t, "n")}
 	}, runC13)
 }
 
